@@ -2,8 +2,15 @@
 //! Links the production (`cfg(not(test))`) build of the crate at `/repo`.
 
 pub mod fieldmap;
+pub mod flow;
+pub mod gen;
+pub mod known;
 pub mod ksf;
+pub mod props;
 pub mod proto;
+pub mod refmodel;
 pub mod remote;
+pub mod runner;
+pub mod selftest;
 pub mod suites;
 pub mod tape;
